@@ -228,8 +228,10 @@ func newDateTime(argumentList []Value, location *Time.Location) float64 {
 			year += 1900
 		}
 
-		time := Time.Date(int(year), dateToGoMonth(int(month)), int(day), int(hour), int(minute), int(second), int(millisecond)*1000*1000, location)
-		return timeToEpoch(time)
+		// The milliseconds are added afterwards: as nanoseconds of time.Date a large
+		// value (valid in ECMAScript, e.g. 8.64e15) would overflow an int.
+		time := Time.Date(int(year), dateToGoMonth(int(month)), int(day), int(hour), int(minute), int(second), 0, location)
+		return timeToEpoch(time) + math.Trunc(millisecond)
 	}
 }
 
